@@ -95,7 +95,7 @@ def product_cases(rnd, n):
             ctx = rnd.choice(gen_ctx.TARGET_CONTEXTS)
             texts = [rnd.choice(gen_ctx.TARGET_CONSTRUCTS)[0]]
         elif r < 0.92:
-            ctx = rnd.choice(gen_ctx.OTHER_TARGET_CONTEXTS + gen_ctx.TARGET_CONTEXTS)
+            ctx = rnd.choice(gen_ctx.OTHER_TARGET_CONTEXTS + gen_ctx.TARGET_CONTEXTS + gen_ctx.PATTERN_CONTEXTS)
             texts = [rnd.choice(cons + gen_ctx.TARGET_CONSTRUCTS)[0]]
         else:
             ctx = rnd.choice(gen_ctx.LOAD_CONTEXTS)
@@ -127,7 +127,7 @@ def run_shard(shard):
             check_case(acc, x, "eval", "construct-eval")
             for ctx in gen_ctx.LOAD_CONTEXTS:
                 check_case(acc, gen_ctx.fill(ctx, [x])[0], "exec", "construct-in-load-context")
-            for ctx in gen_ctx.TARGET_CONTEXTS + gen_ctx.OTHER_TARGET_CONTEXTS:
+            for ctx in gen_ctx.TARGET_CONTEXTS + gen_ctx.OTHER_TARGET_CONTEXTS + gen_ctx.PATTERN_CONTEXTS:
                 check_case(acc, gen_ctx.fill(ctx, [x])[0], "exec", "construct-in-target-context")
     elif kind == "product":
         for s in product_cases(rnd, shard["n"]):
